@@ -164,6 +164,10 @@ Section Tensors.
        false = the code as it stands (the tensor is registered and nothing else happens)
        true  = the repaired code (registration is followed by loadConstructedTensors) *)
   Variable eject_on_missing : bool.
+  (* DynamicConstructorDataGlobal::clearTesnors (called by every candidate request):
+       false = the code as it stands (every registered tensor of non-negative weight is dropped, also those that hold samples)
+       true  = the repaired code (a tensor that holds delivered samples stays registered) *)
+  Variable keep_sampled : bool.
 
   (* wrapper.getLevels: level of a 1-D point = first l with point < npts l *)
   Fixpoint level1_from (fuel : nat) (l : Z) (k : Z) : Z :=
@@ -229,11 +233,15 @@ Section Tensors.
   Definition g_api_deliver (st : gstate) (batch : list (idx * V)) : gstate :=
     match batch with [s] => g_deliver_one st s | _ => g_deliver st batch end.
 
-  (* getCandidateConstructionPoints: clearTesnors (drops every registered tensor of non-negative weight), then registers
-     the exclusive children of the loaded tensors; the candidate points (as a set) are the surplus points, not yet
+  (* getCandidateConstructionPoints: clearTesnors (drops the registered tensors of non-negative weight), then registers
+     the exclusive children of the loaded tensors (addTensor skips a tensor that is still registered); the candidate points (as a set) are the surplus points, not yet
      delivered, of the registered tensors that are not complete *)
+  Definition has_sample (data : list (idx * V)) (t : idx) : bool :=
+    existsb (fun p => memb p (map fst data)) (tensor_points t).
   Definition g_candidates_step (st : gstate) (limits : list Z) : gstate :=
-    mkg (gtensors st) (gpoints st) (gdata st) (ginit st) (exclusive_children (gtensors st) (ginit st) limits).
+    let kept := if keep_sampled then filter (has_sample (gdata st)) (greg st) else [] in
+    mkg (gtensors st) (gpoints st) (gdata st) (ginit st)
+        (kept ++ filter (fun t => negb (memb t kept)) (exclusive_children (gtensors st) (ginit st) limits)).
   Definition g_candidate_points (st : gstate) : list idx :=
     flat_map (fun t => if tcomplete (gdata st) t then []
                        else filter (fun p => negb (memb p (map fst (gdata st)))) (tensor_points t))
